@@ -173,6 +173,18 @@ impl<'a, K, V> vstd::std_specs::iter::IteratorSpecImpl for Keys<'a, K, V> {
     open spec fn peek(&self, index: int) -> Option<&'a K> { None }
 }
 
+impl<'a, K, V> vstd::std_specs::iter::IteratorSpecImpl for Values<'a, K, V> {
+    open spec fn obeys_prophetic_iter_laws(&self) -> bool { true }
+    #[verifier::prophetic]
+    open spec fn remaining(&self) -> Seq<&'a V> {
+        Seq::new(it_rem(self.iter).len(), |i: int| it_rem(self.iter)[i].1)
+    }
+    #[verifier::prophetic]
+    open spec fn will_return_none(&self) -> bool { it_none(self.iter) }
+    open spec fn decrease(&self) -> Option<nat> { it_dec(self.iter) }
+    open spec fn peek(&self, index: int) -> Option<&'a V> { None }
+}
+
 impl<'a, T> vstd::std_specs::iter::IteratorSpecImpl for SetIter<'a, T> {
     open spec fn obeys_prophetic_iter_laws(&self) -> bool { true }
     #[verifier::prophetic]
